@@ -126,7 +126,7 @@ def register(reg):
         externals={"getattr": {"returns": "Opaque:Any", "doc": "attribute lookup with default"},
                    "call:opaque": {"returns": "Opaque:Any", "may_raise": "AnyException", "record_as": "hook",
                                    "doc": "the addon's hook: arbitrary code"},
-                   "cls.SCHEDULER.schedule_task": {"may_raise": "AnyException", "doc": "task scheduling"}},
+                   "cls.SCHEDULER.schedule_task": {"may_raise": "AnyException", "ignore_args": True, "doc": "task scheduling"}},
         may_raise={"AnyException": "not self._SWALLOW_ADDON_EXCEPTIONS"},
         ensures=["ncalls('hook') <= 1"], frame=[]))
 
